@@ -87,25 +87,25 @@ package keeper
 // ---------------------------------------------------------------- timestamps
 
 //@ func Keeper.SetBeaconTimestamp(ctx, beaconId, beaconTimestamp) (err)
-//@   props C07 C08
+//@   props C07 C08 C18
 //@   nopanic
 //@   modifies bea_store
 //@   ensures err == nil && bea_store == tsPut(old(bea_store), beaconId, beaconTimestamp)
 
 //@ func Keeper.IsBeaconTimestampRecordedByID(ctx, beaconID, timestampID) (ok)
-//@   props C07 C08
+//@   props C07 C08 C18
 //@   nopanic
 //@   pure
 //@   ensures ok == tsHas(bea_store, beaconID, timestampID)
 
 //@ func Keeper.GetBeaconTimestampByID(ctx, beaconID, timestampID) (b, found)
-//@   props C07 C08
+//@   props C07 C08 C18
 //@   pure
 //@   ensures found == tsHas(bea_store, beaconID, timestampID)
 //@   ensures found ==> b == tsGet(bea_store, beaconID, timestampID)
 
 //@ func Keeper.deleteBeaconTimestamp(ctx, beaconId, beaconTimestampId) (err)
-//@   props C07 C08
+//@   props C07 C08 C18
 //@   nopanic
 //@   modifies bea_store
 //@   ensures err == nil
